@@ -1126,8 +1126,9 @@ def phi_1D_X(xx, nu=1.0, theta0=1.0, gamma=0, h=0.5, beta=1, alpha=1):
     Kv = (2.*beta+4.)*(beta+1.)/(9.*beta)
     Km1 = 4./3. * gamma*(0.5+h)
     Km2 = 4./3.*gamma*(1.-2.*h)
-    g1 = Km1/Kv
-    g2 = Km2/Kv
+    # Selection acts relative to drift in this population, whose size is nu*Nref.
+    g1 = Km1/Kv * nu
+    g2 = Km2/Kv * nu
 
     # First we evaluate the relevant integrals.
     ints = numpy.empty(len(xx))
